@@ -12,7 +12,7 @@ RULE = ("Bounded-exhaustive: the C01 program space (AST size <= S) with two extr
         "with the shadow model (entering manager not listed; exiting manager listed last, is_exiting, obj identical). "
         "evaluations = probe observations; distinct_nontrivial = distinct (program, kind, interpreter).")
 ASSUMPTIONS = [
-    "managers define __exit__/__aexit__ as plain methods with a first positional parameter",
+    "managers define __exit__/__aexit__ as plain methods with a first positional parameter; every second manager implements them through differently named functions (`__exit__ = close`, `__aexit__` returning another method's coroutine)",
     "AST size bound as stated in coverage.bounds; <= 2 statements per block",
 ]
 
@@ -116,7 +116,7 @@ def run(ctx):
                 idx += 1
                 if not ctx.mine(idx):
                     continue
-                npaths, nobs = run_program(body, kind, ctx, make_observer)
+                npaths, nobs = run_program(body, kind, ctx, make_observer, ns=ps.NS_MIXED)
                 ctx.count("programs")
                 ctx.count("deep_programs")
                 ctx.count("distinct_nontrivial")
@@ -137,7 +137,7 @@ def run(ctx):
                 continue
             if idx % 500 == 0:
                 ctx.inflight({"body": repr(body), "kind": kind})
-            npaths, nobs = run_program(body, kind, ctx, make_observer)
+            npaths, nobs = run_program(body, kind, ctx, make_observer, ns=ps.NS_MIXED)
             ctx.count("programs")
             ctx.count("distinct_nontrivial")
             ctx.count("paths", npaths)
@@ -148,4 +148,4 @@ def run(ctx):
 
 def replay(case):
     from vlib.ctxobs import replay_case
-    return replay_case(case, make_observer)
+    return replay_case(case, make_observer, ns=ps.NS_MIXED)
